@@ -19,3 +19,22 @@ Definition guard_code (gd : guard) : N :=
 
 (** the model's verdict for a request: does a handler with guard [gd] act for group [g] on [k] *)
 Definition acts_cases (gd : guard) (g : pgroup) (ks : list (option str)) : list bool := map (acts gd g) ks.
+
+(** the privilege write path: a script of add / update operations on ONE user record; after
+    every operation the observation over [ks] of the group the next login would get *)
+Inductive uop := UAdd (p : option pparam) | UUpd (p : option pparam).
+
+Definition uobs (u : urec) (ks : list str) : N * list (bool * bool * bool) :=
+  let g := urec_group u in
+  (get_flags g, map (fun k => (mem k (olist (wl g)), mem k (olist (bl g)), ns_check g k)) ks).
+
+Fixpoint urun (u : option urec) (ops : list uop) (ks : list str) : list (option (N * list (bool * bool * bool))) :=
+  match ops with
+  | [] => []
+  | UAdd p :: t => let u' := add_user_priv p in Some (uobs u' ks) :: urun (Some u') t ks
+  | UUpd p :: t =>
+      match u with
+      | None => None :: urun None t ks                      (* "not found user" *)
+      | Some u0 => let u' := update_user_priv u0 p in Some (uobs u' ks) :: urun (Some u') t ks
+      end
+  end.
